@@ -92,23 +92,26 @@ pub fn c06_concat(ctx: &mut Ctx, t: &Term) {
       }
     }
   }
-  // by the composite's map
-  match obs.map(true) {
-    Err(e) => report_panic(ctx, t, "map(true)", &e),
-    Ok(m) => {
-      ctx.transitions += 1;
-      for (i, &(l, c)) in pos.iter().enumerate() {
-        let got = norm(&m.as_ref().and_then(|m| m.resolve(l, c)));
-        if got != expected[i] {
-          ctx.violation(
-            "concat_map_attribution",
-            format!("exp_mapped={} got_mapped={}", expected[i].is_some(), got.is_some()),
-            None,
-            || case_json(t),
-            t.size(),
-            format!("position {l}:{c} of {text:?}: child says {:?}, ConcatSource map says {:?}", expected[i], got),
-          );
-          break;
+  // by the composite's map; a second time when a child answers from a cache the first call filled
+  let rounds = if crate::tree_checks::has_cached(t) { 2 } else { 1 };
+  for round in 0..rounds {
+    match obs.map(true) {
+      Err(e) => report_panic(ctx, t, "map(true)", &e),
+      Ok(m) => {
+        ctx.transitions += 1;
+        for (i, &(l, c)) in pos.iter().enumerate() {
+          let got = norm(&m.as_ref().and_then(|m| m.resolve(l, c)));
+          if got != expected[i] {
+            ctx.violation(
+              if round == 0 { "concat_map_attribution" } else { "concat_map_attribution_repeated_call" },
+              format!("exp_mapped={} got_mapped={}", expected[i].is_some(), got.is_some()),
+              None,
+              || case_json(t),
+              t.size(),
+              format!("position {l}:{c} of {text:?} (call {}): child says {:?}, ConcatSource map says {:?}", round + 1, expected[i], got),
+            );
+            break;
+          }
         }
       }
     }
